@@ -262,4 +262,6 @@ def check(ctx, R):
     R.run("C20.g", rule_g, ctx)
     from . import preds
     R.run("C20.p", lambda R, c: preds.rule(R, c, "C20.p", ["adjacent_left", "adjacent_right"]), ctx)
+    from . import c02 as _c02
+    R.run("C20.h", lambda R, c: _c02.rule_g(R, c, "C20.h"), ctx)
     return {}
